@@ -1319,7 +1319,7 @@ Engine.wrap_bound = lambda self, x: wrap(x)
 
 
 def coerce_arg(self, t, v, st):
-    from .contract import OptT, RealT, ListOf
+    from .contract import OptT, RealT, ListOf, IntT
     if isinstance(t, OptObjT):
         if isinstance(v, Ref):
             return Opt(z3.BoolVal(False), v)
@@ -1337,6 +1337,11 @@ def coerce_arg(self, t, v, st):
         return Opt(z3.BoolVal(False), coerce_elem(self, tmpl, v))
     if isinstance(t, RealT) and is_int(v):
         return z3.ToReal(v)
+    if isinstance(t, IntT) and isinstance(v, WinV):
+        # best_window_size passed as a window size: it must be finite on this path (np.inf is not an integer)
+        self.oblige(st, z3.Not(v.isinf), f"window-size-finite#{len(self.obls)}", "exception-freedom", None,
+                    "a best_window_size used as an integer window size is not np.inf")
+        return v.val
     if isinstance(t, RealT) and isinstance(v, Rec) and v.cls == "Field":
         return v.fields["text"]          # a csv field used as a string
     if isinstance(t, UnitT) and isinstance(v, Opt) and isinstance(v.val, UnitV):
